@@ -167,6 +167,12 @@ func runC11(c *Ctx) {
 	ruleDictWrites(c, r6)
 	c.R.Floor(r6, 30)
 
+	const r7 = "C11.R7 one realm's shutdown does not occupy the router goroutine that serves the other realms"
+	// realm.close blocks until every session handler of that realm has ended; on the router goroutine it would stall
+	// attaches to and administration of every other realm (the router's own Close, which stops everything, excepted)
+	c.OnlyCalledFrom(r7, "realm.close", `^router\.\(\*realm\)\.close$`, `^router\.\(\*router\)\.(RemoveRealm|Close\$1\$1)$`, 2)
+	c.R.Floor(r7, 2)
+
 	const r5 = "C11.R5 a session is attached to the realm named in its HELLO"
 	a2 := "router.(*router).AttachClient$2"
 	c.AllMatch(r5, a2, "realm chosen by HELLO.Realm or created for it", `^store:\^realm=`, `^store:\^realm=(\^r\.realms\[\^hello\.Realm\],ok#0|call:router\.\(\*router\)\.addRealm\(\^r, &local:config\)#0)$`, 2)
